@@ -160,6 +160,7 @@ package fsnotify
 //@     invariant nolocks() && KWf(w) && open == old(open) && w.watches.wd == old(w.watches.wd) && w.watches.seen == old(w.watches.seen) && hist(w.Events) == old(hist(w.Events))
 
 //@ func (w *kqueue) internalWatch(name string, fi os.FileInfo) (res string, err error)
+//@   atcall kqueue.addWatch: arg_name == name && arg_flags & (unix.NOTE_DELETE | unix.NOTE_RENAME) == unix.NOTE_DELETE | unix.NOTE_RENAME     [C18 C17] "an entry of a watched directory is watched at least for its own removal and renaming: that is what ends its watch and clears its seen mark, so that the name can be reported as created again"
 //@   requires KWf(w) && nolocks()
 //@   ensures KWf(w)
 //@   ensures nolocks() && Recorded(w)                                                                                          [C17]
@@ -201,6 +202,7 @@ package fsnotify
 //@   local path watch
 //@   atcall shared.sendEvent: ok && path.linkName == "" && arg_e.Op & (Rename | Remove) != 0 ==> lastRemoved == path.name     [C17] "a Rename or Remove notification ends the watch: before it is reported, the removal of that watch has been carried out"
 //@   atcall kqueue.dirChange: ok && path.linkName == "" && event.Op & (Rename | Remove) != 0 ==> lastRemoved == path.name      [C17] "also when the notification is a directory change combined with a rename"
+//@   atcall kqueue.dirChange: arg_dir == event.Name || arg_dir == filepath.Clean(event.Name)                                 [C18] "a changed directory is listed again under the name its events are reported with (the spelling it was added under), the name its seen marks are kept under"
 //@   atcall kqueue.remove: arg_name == filepath.Clean(arg_name) ==> arg_name == path.name                                     [C17] "when a watched path is deleted or renamed, the removal is asked for under the name the tables are keyed by (so that its descriptor is closed)"
 //@   loop 1 "for"
 //@     invariant KWf(w) && nolocks() && token(reader) && !closed(w.Events) && !closed(w.Errors)
